@@ -68,6 +68,15 @@ CLAIMED["C26"] = (
     "Exhaustive model checking of the inverse laws and of the arithmetic for every input in the bounds (all 1-3 sextet strings, "
     "boundary alphabets up to 6) plus conformance of the six real functions on every such input and on recorded calls with inputs "
     "of up to 24 sextets.", "3 C26", "")
+CLAIMED["C25"] = (
+    "TLA+ spec specs/box/Boxwork.tla (box forests, active pile, one action per pass of Boxer.run: armed transition acts in "
+    "evaluation order, failing entry preconditions, end): TLC exhaustive MC over every ordered forest of <= 4 (quick) / 5 boxes of "
+    "the clause-by-clause invariants ExitBottomUp/EnterTopDown/PhaseOrder/DeclOrder/OnceEach/SetsExact/NoActsWhenNotFired/"
+    "EndExitsAll; every model transition executed on a real Boxer of real Box objects with logging acts and the action trace and "
+    "active box compared (spec->code)",
+    "Exhaustive model checking of the documented transition order over all box forests within the bound plus conformance of the "
+    "real Boxer on every transition of the model (every active box, every firing box/destination, forced re-entry, keep-trying "
+    "after a failed precondition, end).", "3 C25", "")
 NA = {
  "C28": "pure value-fidelity of json/cbor2/msgpack + dataclass reflection: no state/transition structure for a TLA+ model to decide (DESIGN.md section 4)",
 }
